@@ -88,9 +88,9 @@ fn build(rng: &mut Rng, feature: &str) -> (Session, Vec<String>) {
     }
     if feature == "large-repetitive-table" {
         // thousands of rows over a handful of distinct values: compresses several hundred times
-        let m = rng.range(1500, 5000);
+        let m = rng.range(8000, 20000);
         for k in 0..m {
-            s.db.insert_row("OTHER", Row::new(vec![SqlValue::Integer(k % 3), SqlValue::Varchar(["n", "m"][(k % 2) as usize].to_string())])).expect("direct insert");
+            s.db.insert_row("OTHER", Row::new(vec![SqlValue::Integer(k % 3), SqlValue::Varchar(["nnnnnnnnnn", "mmmmmmmmmm"][(k % 2) as usize].to_string())])).expect("direct insert");
         }
     }
     let mut ddl = Vec::new();
